@@ -10,6 +10,7 @@ bootstrap.ensure()
 
 ID = "C04"
 LEVEL = "exploration"
+TECHNIQUE = "runtime monitoring: commute() reports judged by an independent interpreter on witness targets (direct enumeration + hook on every internal call)"
 RULE = (
     "seeded enumeration of ordered pairs (new operation, existing operation) from {Calculation, Deduplication, "
     "Projection, Selection, Slice, Sort, PartialJoin(lhs/rhs fixed)}^2 with parameter shapes aimed at every guard "
